@@ -692,7 +692,7 @@ func (p *c06) Shrink(scAny any) []any {
 
 func (p *c06) Info() PropInfo {
 	return PropInfo{
-		Rule: "seeded search: 1..2 messages, each built by a sender call followed by 2..8 address-setting calls drawn from {To/Cc/Bcc: set (0..3 addresses), AddX, AddXFormat, XIgnoreInvalid, XFromString; From/EnvelopeFrom/ReplyTo: plain and Format variants, FromIgnoreInvalid} with generated addresses (unique per field, some local parts needing quoting or UTF-8, display names plain / with comma / non-ASCII / with parentheses / very long / with runs of blanks / with a TAB, duplicates within a list, invalid inputs mixed in), applied to the Msg and to the reference model; a quarter of the messages are built on a Msg value that carried another mail before and was Reset(); FromString lists partly with an invalid field; then a direct render and DialAndSend under no fault or a refused RCPT (450/550) optionally plus a refused MAIL; non-trivial = at least one message is sendable; distinct = distinct (call sequence, reply script, seed)",
+		Rule: "seeded search: 1..2 messages, each built by a sender call followed by 2..8 address-setting calls drawn from {To/Cc/Bcc: set (0..3 addresses), AddX, AddXFormat, XIgnoreInvalid, XFromString; From/EnvelopeFrom/ReplyTo: plain and Format variants, FromIgnoreInvalid} with generated addresses (unique per field, some local parts needing quoting or UTF-8, display names plain / with comma / non-ASCII / with parentheses / very long / with runs of blanks / with a TAB, duplicates within a list, invalid inputs mixed in), applied to the Msg and to the reference model; a quarter of the messages are built on a Msg value that carried another mail before and was Reset(); FromString lists partly with an invalid field; the envelope sender taken back; then a direct render and DialAndSend under no fault or a refused RCPT (450/550) optionally plus a refused MAIL; non-trivial = at least one message is sendable; distinct = distinct (call sequence, reply script, seed)",
 		Assumptions: []string{"for the IgnoreInvalid setters the survivors are read back from the getters; the model demands only that they are a subsequence of the inputs and that no pure-ASCII valid input is dropped",
 			"XFromString is exercised with bare addr-specs only (its comma-separated format cannot carry display names with commas)",
 			"Bcc addresses are generated unique to the Bcc list, so any occurrence of one in the bytes is a leak"},
